@@ -19,6 +19,9 @@ HARNESS = os.path.join(VERIF, "harness")
 WORK = os.path.join(VERIF, ".work")
 REPLAYS = os.path.join(VERIF, "replays")
 EVIDENCE = os.path.join(VERIF, "evidence")
+if os.environ.get("VERIF_REPO", "/repo").rstrip("/") != "/repo":
+    # development runs against a scratch copy never touch the committed evidence
+    EVIDENCE = os.path.join(WORK, "evidence-scratch")
 TLA_JAR = "/opt/veriftools/tla/tla2tools.jar"
 COMMUNITY = "/opt/veriftools/tla/CommunityModules-deps.jar"
 
@@ -132,8 +135,10 @@ def build_harness(variant="std", binary=None):
 def harness(binary, args, stdin=None, timeout=1800, variant="std", env=None):
     """Runs a harness binary; returns stdout. Non-zero exit is a tool error."""
     d = build_harness(variant, binary)
+    t0 = time.time()
     rc, out, err = run([os.path.join(d, binary)] + [str(a) for a in args],
                        stdin=stdin, timeout=timeout, env=env, cwd=VERIF)
+    log("[harness] %s %s %.1fs" % (binary, " ".join(str(a) for a in args[:3]), time.time() - t0))
     if rc != 0:
         raise ToolError("harness %s %s exited %d:\n%s\n%s" % (binary, args, rc, out[-2000:], err[-4000:]))
     return out
@@ -236,6 +241,7 @@ def tlc(module, cfg=None, workers=8, timeout=900, env=None, trace=False, extra=N
             rc, out, err = run(cmd, cwd=SPEC, env=e, timeout=timeout)
     shutil.rmtree(meta, ignore_errors=True)
     res = TlcResult(rc, out + "\n" + err, time.time() - t0)
+    log("[tlc] %s/%s %.1fs distinct=%d" % (module, cfg, res.wall, res.distinct))
     if check_error and (res.error or (rc != 0 and not res.violated)):
         raise ToolError("TLC %s/%s failed (rc=%d):\n%s" % (module, cfg, rc, res.out[-6000:]))
     return res
